@@ -136,8 +136,8 @@ def rule_b(ctx, out):
         if n.kind == "stmt" and isinstance(a, ast.Assign) and len(a.targets) == 1 and is_name(a.targets[0], "error") \
                 and isinstance(a.value, ast.Constant):
             (zero_nodes if a.value.value == 0 else one_nodes).append(n)
-    if not zero_nodes or not one_nodes:
-        raise AnalysisError("greedy_from_json: `error = 0` / `error = 1` assignments not found")
+    if not zero_nodes:
+        raise AnalysisError("greedy_from_json: `error = 0` assignment not found")
     risky_nodes = {cfg.node_containing(c).id for c in risky}
     for z in zero_nodes:
         reach = cfg.reachable_nodes(z, skip_exc=True)
